@@ -149,6 +149,12 @@ def family_f1(quick=True):
     pid += 1
     progs.append(dict(I.program(f"p{pid}", ["x"], [I.assign(I.name("a"), I.add(I.read("cv"), I.site(k()))), I.ret(I.read("a"))],
                                 closure=["cv"], pid=pid), form="closure_read", ctx="top", family="F1"))
+    # multi-line string literals in an indented definition (the function's source cannot be dedented as text)
+    for zero in (False, True):
+        k = K()
+        pid += 1
+        progs.append(dict(I.program(f"p{pid}", ["x"], [I.assign(I.name("a"), I.add(I.mlstr(zero), I.site(k()))), I.ret(I.add(I.read("a"), I.read("cv")))],
+                                    closure=["cv"], pid=pid), form="multiline_string" + ("_col0" if zero else ""), ctx="top", family="F1"))
     k = K()
     pid += 1
     progs.append(dict(I.program(f"p{pid}", ["x"], [I.nonlocal_("cv"), I.assign(I.name("cv"), I.site(k())), I.ret(I.read("cv"))],
